@@ -167,7 +167,7 @@ fn simplify_cfg(ctx: &mut Ctx, t: &mut Trace) {
     let mut cand = t.clone();
     for (k, e) in cand.events.iter_mut().enumerate() {
         match e {
-            Ev::Deliver { t, .. } | Ev::Restart { t } | Ev::Reconfigure { t, .. } => *t = k as u64,
+            Ev::Deliver { t, .. } | Ev::Restart { t } | Ev::Reconfigure { t, .. } | Ev::ResetCaches { t, .. } => *t = k as u64,
         }
     }
     if ctx.fails(&cand).is_some() {
